@@ -64,7 +64,10 @@ func Tokenize(s string) (toks Tokens) {
 			if tok.Offset == -1 {
 				tok.Offset = i
 			}
-			tok.Text += string(r)
+			// Append the bytes of the input rather than string(r): for a byte
+			// that is not valid UTF-8 r is utf8.RuneError, whose encoding is
+			// three bytes long and is not what the input contains at offset i.
+			tok.Text += s[i : i+size]
 		}
 		i += size
 	}
